@@ -48,6 +48,56 @@ fn verif_replay() {
         println!("VERIF-OUTCOME {}", out);
         return;
     }
+    if case["driver"].as_str() == Some("bidi_reset") {
+        // the real copy_bidi between two real TCP connections; one peer resets (SO_LINGER 0, unread data pending) -- at once, or only
+        // after the other direction has ended cleanly (its sender half-closed and the far side saw the end of stream)
+        let failing_server = a["failing"].as_str().unwrap_or("server") == "server";
+        let late = a["after_clean_end_of_other"].as_bool().unwrap_or(true);
+        let rt = tokio::runtime::Builder::new_current_thread().enable_all().build().unwrap();
+        let out = rt.block_on(async move {
+            use tokio::io::{AsyncReadExt, AsyncWriteExt};
+            use tokio::net::{TcpListener, TcpStream};
+            use crate::context::{make_buffered_stream, GlobalState as CtxState};
+            let l = TcpListener::bind("127.0.0.1:0").await.unwrap();
+            let addr = l.local_addr().unwrap();
+            let cpeer = TcpStream::connect(addr).await.unwrap();
+            let (cours, _) = l.accept().await.unwrap();
+            let speer = TcpStream::connect(addr).await.unwrap();
+            let (sours, _) = l.accept().await.unwrap();
+            let state: Arc<CtxState> = Default::default();
+            let ctx = state.create_context("l".into(), "127.0.0.1:1".parse().unwrap()).await;
+            ctx.write().await.set_client_stream(make_buffered_stream(cours)).set_server_stream(make_buffered_stream(sours)).set_connector("direct".into());
+            let params = IoParams { buffer_size: 64, use_splice: false };
+            let ctx2 = ctx.clone();
+            let relay = tokio::spawn(async move { copy_bidi(ctx2, &params).await.map_err(|e| e.to_string()) });
+            // `good` is the side whose sending direction ends cleanly, `bad` the one that resets
+            let (mut good, mut bad) = if failing_server { (cpeer, speer) } else { (speer, cpeer) };
+            let mut other_ended = false;
+            if late {
+                good.write_all(b"ping").await.unwrap();
+                good.shutdown().await.unwrap();
+                let mut got = Vec::new();
+                let r = tokio::time::timeout(std::time::Duration::from_secs(2), bad.read_to_end(&mut got)).await;
+                other_ended = matches!(r, Ok(Ok(_))) && got == b"ping";
+                tokio::time::sleep(std::time::Duration::from_millis(50)).await;
+            }
+            // unread data on the resetting side makes the close an abort for certain
+            good.write_all(b"unread").await.ok();
+            bad.write_all(b"pong").await.ok();
+            tokio::time::sleep(std::time::Duration::from_millis(50)).await;
+            bad.set_linger(Some(std::time::Duration::from_secs(0))).unwrap();
+            drop(bad);
+            let r = tokio::time::timeout(std::time::Duration::from_secs(3), relay).await;
+            drop(good);
+            match r {
+                Err(_) => serde_json::json!({"panicked": false, "hang": true}),
+                Ok(Err(e)) => serde_json::json!({"panicked": e.is_panic(), "hang": false}),
+                Ok(Ok(res)) => serde_json::json!({"panicked": false, "ok": res.is_ok(), "peer_was_reset": !late || other_ended, "other_direction_ended_cleanly": other_ended, "err": res.err()}),
+            }
+        });
+        println!("VERIF-OUTCOME {}", out);
+        return;
+    }
     if case["driver"].as_str() == Some("handover") {
         // both peers send a line (consumed by the "handshake") with more bytes glued behind it in the same segment; the real
         // copy_bidi must deliver those extra bytes to the other side
